@@ -186,6 +186,15 @@ func genWorld(r *kit.Rand, mode string) genOut {
 		} else {
 			n.Pods = genPods(r, n.Name, r.Range(1, 3), false)
 		}
+		// little spare room: the pods of one candidate rarely fit on another
+		sum := 0
+		for _, pd := range n.Pods {
+			sum += pd.CPUm
+		}
+		n.CPU = (sum + 999 + r.Intn(2)*1000) / 1000
+		if n.CPU < 1 {
+			n.CPU = 1
+		}
 		key := cur{n.IT, n.CT, n.Zone}
 		if !seen[key] {
 			seen[key] = true
@@ -224,7 +233,7 @@ func genWorld(r *kit.Rand, mode string) genOut {
 	// replacement types
 	nrep := r.Range(2, 7)
 	if mode == "s2s" {
-		nrep = r.Range(12, 19)
+		nrep = r.Range(14, 21)
 	}
 	fams := []string{"fa", "fb", "fc", "fd"}
 	for i := 0; i < nrep; i++ {
@@ -233,8 +242,8 @@ func genWorld(r *kit.Rand, mode string) genOut {
 		switch mode {
 		case "s2s":
 			// mostly one cheaper spot offering; sometimes a second one that may be dearer (worst-case price)
-			offs = append(offs, offSpec{CT: "spot", Zone: kit.Pick(r, zoneNames), Price: belowOrAt(r, anchors), Avail: !r.Chance(1, 14)})
-			if r.Chance(1, 5) {
+			offs = append(offs, offSpec{CT: "spot", Zone: kit.Pick(r, zoneNames), Price: belowOrAt(r, anchors), Avail: !r.Chance(1, 20)})
+			if r.Chance(1, 8) {
 				offs = append(offs, offSpec{CT: "spot", Zone: kit.Pick(r, zoneNames), Price: nearPrice(r, anchors), Avail: !r.Chance(1, 6)})
 			}
 			if r.Chance(1, 3) {
@@ -256,7 +265,10 @@ func genWorld(r *kit.Rand, mode string) genOut {
 	}
 
 	// minValues next to the number of options
-	if r.Chance(1, 4) {
+	if mode == "s2s" && r.Chance(1, 3) {
+		spec.Pools[0].MinKey = "it"
+		spec.Pools[0].MinVal = r.Range(13, 19)
+	} else if r.Chance(1, 4) {
 		pool := &spec.Pools[0]
 		if r.Chance(2, 3) {
 			pool.MinKey = "it"
@@ -272,7 +284,7 @@ func genWorld(r *kit.Rand, mode string) genOut {
 	}
 
 	// somewhere else to go
-	if mode != "empty" && r.Chance(2, 5) {
+	if mode != "empty" && r.Chance(1, 4) {
 		sink := nodeSpec{Name: "sink", Pool: pool.Name, IT: "c0", CT: "on-demand", Zone: "z1", CPU: kit.Pick(r, []int{1, 2, 4, 16}), Init: !r.Chance(1, 4), Protect: true}
 		if r.Chance(1, 3) {
 			sink.Pods = genPods(r, "sink", 1, false)
@@ -291,6 +303,9 @@ func genWorld(r *kit.Rand, mode string) genOut {
 	for i := range spec.Nodes {
 		for j := range spec.Nodes[i].Pods {
 			p := &spec.Nodes[i].Pods[j]
+			if mode == "s2s" && !r.Chance(1, 4) {
+				continue
+			}
 			switch {
 			case r.Chance(1, 8):
 				p.Zone = kit.Pick(r, zoneNames)
@@ -306,7 +321,7 @@ func genWorld(r *kit.Rand, mode string) genOut {
 
 func belowOrAt(r *kit.Rand, anchors []int64) int64 {
 	a := anchors[0]
-	switch r.Intn(12) {
+	switch r.Intn(24) {
 	case 0:
 		return a
 	case 1:
